@@ -231,14 +231,14 @@ impl SparseVector {
     // Split a bitvector index into high and low parts.
     fn split(&self, index: usize) -> Parts {
         Parts {
-            high: index >> self.low.width(),
+            high: index.checked_shr(self.low.width() as u32).unwrap_or(0),
             low: index & unsafe { bits::low_set_unchecked(self.low.width()) as usize },
         }
     }
 
     // Get (rank, bitvector index) from the offsets in `high` and `low`.
     fn combine(&self, pos: Pos) -> (usize, usize) {
-        (pos.low, ((pos.high - pos.low) << self.low.width()) + (self.low.get(pos.low) as usize))
+        (pos.low, (pos.high - pos.low).checked_shl(self.low.width() as u32).unwrap_or(0) + (self.low.get(pos.low) as usize))
     }
 
     // Get the offsets in `high` and `low` for the set bit of the given rank.
